@@ -125,12 +125,12 @@ def build(flavour, target):
 
 def prune_builds(keep_hash):
     try:
-        ds = [d for d in os.listdir(BUILD_ROOT) if os.path.isdir(os.path.join(BUILD_ROOT, d))]
+        ds = [d for d in os.listdir(BUILD_ROOT) if os.path.isdir(os.path.join(BUILD_ROOT, d)) and re.fullmatch(r"[0-9a-f]{16}", d)]
         ds.sort(key=lambda d: os.path.getmtime(os.path.join(BUILD_ROOT, d)), reverse=True)
         keep = [keep_hash]
         if REPO != "/repo" and os.path.isdir("/repo/inc"):
             keep.append(tree_hash("/repo"))  # never evict the real tree's build while testing scratch copies
-        keep += [d for d in ds if d not in keep and d != "work"][:1] + ["work"]
+        keep += [d for d in ds if d not in keep][:2]
         for d in ds:
             if d not in keep:
                 shutil.rmtree(os.path.join(BUILD_ROOT, d), ignore_errors=True)
@@ -185,6 +185,8 @@ def classify_crash(stderr, rc):
         return "glibcxx-assert"
     if "HARNESS-FAILURE" in s:
         return "harness"
+    if rc == 98 or "HANG: a case exceeded" in s:
+        return "hang"
     if "ERROR SUMMARY" in s or "Invalid read" in s or "Invalid write" in s or "uninitialised" in s:
         return "memcheck"
     return "signal:%d" % (-rc) if rc < 0 else "exit:%d" % rc
@@ -269,6 +271,7 @@ def run_seq_engine(res, flavour, mode, kinds, profiles, cases_per_kind, seed, ta
                    "--trigger-all", hex(trigger_all), "--samples", str(samples), "--journal", jr, "--out", out, "--hashes", hs]
             if noinsr:
                 cmd.append("--noinsr")
+            cmd += ["--case-timeout", str((20 + nops[1] // 50) * (40 if valgrind else 1))]
             if valgrind:
                 cmd = ["valgrind", "--error-exitcode=97", "--quiet", "--leak-check=full", "--errors-for-leak-kinds=definite",
                        "--track-origins=no"] + cmd
@@ -287,7 +290,8 @@ def run_seq_engine(res, flavour, mode, kinds, profiles, cases_per_kind, seed, ta
             what = classify_crash(r.stderr, r.returncode)
             outs.append(("crash", kind, {"what": what, "journal": journal, "stderr": r.stderr[-6000:], "flavour": flavour, "mode": mode}, None))
             m = re.search(r"case_index=(\d+)", journal)
-            if what == "harness" or not m or restarts >= 12:
+            hangs = sum(1 for o in outs if o[0] == "crash" and o[2]["what"] == "hang")
+            if what == "harness" or not m or restarts >= 12 or hangs >= 2:
                 return outs
             start = int(m.group(1)) + 1
             restarts += 1
@@ -458,7 +462,41 @@ def check_seq_property(prop, tier, seed):
         if prop == "C08":
             mine.append({"kind": c["kind"], "tags": ["C08." + c["what"].split(":")[0]], "journal": c["journal"], "stderr": c["stderr"],
                          "what": c["what"], "flavour": c["flavour"], "mode": c["mode"], "detail": c["what"], "cfg": c["journal"]})
+        elif prop == "C20" and c["mode"] == "twin-clear" and re.search(r"^CLEAR", c["journal"], re.M):
+            # a container that crashes in a continuation after clear() is certainly distinguishable from a fresh one
+            mine.append({"kind": c["kind"], "tags": ["C20.crash-after-clear"], "journal": c["journal"], "stderr": c["stderr"],
+                         "what": c["what"], "flavour": c["flavour"], "mode": c["mode"], "detail": "crash in a continuation after clear(): " + c["what"], "cfg": c["journal"]})
 
+    # A sanitizer abort pre-empts the behavioural monitor.  So that a property's own check can still see what the
+    # aborted history does to *its* clause, the journalled cases are re-executed in a build without sanitizers or
+    # checked iterators (they may simply crash there too, which changes nothing).
+    replayed_after_abort = 0
+    if prop != "C08" and res.crashes:
+        plain = build("o1", "seq_driver")
+        for n, c in enumerate(res.crashes[:12]):
+            if not c.get("journal") or c["what"] == "hang":
+                continue
+            jp = os.path.join(BUILD_ROOT, "work", "abort-%s-%d-%d.txt" % (prop, os.getpid(), n))
+            os.makedirs(os.path.dirname(jp), exist_ok=True)
+            with open(jp, "w") as f:
+                f.write(c["journal"])
+            try:
+                r = subprocess.run([plain, "--replay", jp], capture_output=True, text=True, timeout=120)
+            except subprocess.TimeoutExpired:
+                continue
+            finally:
+                os.remove(jp)
+            replayed_after_abort += 1
+            m = re.search(r"^REPLAY: violated at op (-?\d+): ([^:]*): (.*)$", r.stdout, re.M)
+            if not m:
+                continue
+            tags = m.group(2).split()
+            if any(t.startswith(prop + ".") for t in tags):
+                lines = [ln for ln in c["journal"].splitlines() if ln and not ln.startswith("# audit") and not ln.startswith("# destroy")]
+                cfgl = [ln for ln in lines if ln.startswith("NEW")]
+                mine.append({"kind": c["kind"], "tags": tags, "cfg": (cfgl[0] if cfgl else "") + " # mode=" + c["mode"], "mode": c["mode"], "flavour": "o1",
+                             "ops": [ln for ln in c["journal"].splitlines() if ln and not ln.startswith("NEW") and not ln.startswith("# mode")],
+                             "detail": m.group(3) + " [case aborted under the sanitizer build (%s); judged by re-executing its journal in a plain build]" % c["what"]})
     ev_named = {name: res.ev[bit] for name, bit in EV.items() if res.ev[bit]}
     trig = spec.get("trigger_counters", [])
     trig_counts = {t: (res.ev[EV[t]] if t in EV else res.counters.get(t, 0)) for t in trig}
@@ -479,6 +517,7 @@ def check_seq_property(prop, tier, seed):
         "steps_with_several_candidates": res.counters.get("cand_multi_steps", 0),
         "cases_truncated_by_other_properties": others,
         "cases_aborted": crash_kinds,
+        "aborted_cases_rejudged_in_plain_build": replayed_after_abort,
         "watchdog_fired": res.watchdog,
         "violation_tags_this_property": {t: n for t, n in res.tags.items() if t.startswith(prop + ".")},
         "unattributed": {t: n for t, n in res.tags.items() if t.startswith("UNATTRIBUTED")},
@@ -503,9 +542,27 @@ def replay(path):
     txt = open(path).read()
     m = re.search(r"flavour=(\S+)", txt)
     flavour = m.group(1) if m and m.group(1) in FLAVOURS else "san"
-    binp = build(flavour, "seq_driver")
     env = dict(os.environ)
     env.update(SAN_ENV)
+    mm = re.search(r"# mode=(free|sched2|sched3|schedr) round_seed=(\d+)(?: points=(\d))?", txt)
+    if mm:
+        # a recorded concurrent round (C06)
+        kind = re.search(r"NEW kind=(\S+)", txt).group(1)
+        cmd = [build(flavour, "conc_driver"), "--kind", kind, "--replay-mode", mm.group(1), "--replay-seed", mm.group(2)]
+        if "typeset=1" in txt:
+            cmd.append("--typeset1")
+        if mm.group(3):
+            cmd += ["--points", mm.group(3)]
+        ch = re.search(r"CHOICES ([\d ]*)", txt)
+        if ch:
+            cmd += ["--choices", ch.group(1).strip()]
+        r = subprocess.run(cmd, env=env)
+        sys.exit(1 if r.returncode != 0 else 0)
+    if "ThreadSanitizer" in txt:
+        kind = re.search(r"^# (\S+) C07", txt, re.M)
+        print("C07 witness: the ThreadSanitizer report is in the file; re-run `python3 check.py --property C07` to reproduce (reports vary from run to run)")
+        sys.exit(1)
+    binp = build(flavour, "seq_driver")
     r = subprocess.run([binp, "--replay", path], env=env)
     sys.exit(1 if r.returncode != 0 else 0)
 
